@@ -16,7 +16,7 @@ import (
 func init() {
 	mon.Register(&mon.Prop{
 		ID: "C11", Level: "exploration",
-		Rule: "complete enumeration of strings over the 15 IUPAC DNA codes (upper case to the stated length, mixed case to a shorter length) plus random IUPAC strings in random case up to 10^4 letters and a small set containing U; every split point of every enumerated string is used for the concatenation clause; non-trivial = length >= 2 and at least two different letters; distinct by hash of the string",
+		Rule:        "complete enumeration of strings over the 15 IUPAC DNA codes (upper case to the stated length, mixed case to a shorter length) plus random IUPAC strings in random case up to 10^4 letters and a small set containing U; every split point of every enumerated string is used for the concatenation clause; non-trivial = length >= 2 and at least two different letters; distinct by hash of the string",
 		Assumptions: []string{"oracle: complement of a code = code of the set of complementary bases (NC-IUB 1984 base sets), expansion = Cartesian product of the base sets; written without reference to poly's tables"},
 		Shards:      tierShards(8, 16), WatchdogSec: tierSecs(600, 3600),
 		Run: runC11,
